@@ -235,5 +235,5 @@ void harness_exhaustive(int shard, int nshards) {
     for (int v = 0; v < variants; v++) { SignedFile f = smallSigned((unsigned)v); uint64_t cnt = 0;
         for (int sv = 0; sv < 2; sv++) { size_t lim = sv ? f.svLen : f.sigOffset;
             for (size_t p = 0; p < lim; p++) for (uint8_t mk : masks) { cnt++; if ((int)(idx++ % (uint64_t)nshards) != shard) continue; std::vector<uint8_t> e = {(uint8_t)v, (uint8_t)sv, (uint8_t)(p >> 8), (uint8_t)p, mk}; if (runExh(e)) return; } }
-        stats().exhaustive["small signed file variant " + num(v) + ": every byte of the signed range and of the signature value x 3 masks"] = cnt; }
+        if (shard == 0) stats().exhaustive["small signed file variant " + num(v) + ": every byte of the signed range and of the signature value x 3 masks"] = cnt; }
 }
